@@ -18,7 +18,8 @@ Names == <<"a", "b", "c", "d", "e", "f", "g">>
 
 \* the operand that follows the n-th operator
 Operand(n, op) == IF op = "between" THEN Lst(<<Leaf("id", Names[n + 1]), Leaf("num", "7")>>)
-                  ELSE IF op = "in" THEN Lst(<<Leaf("str", "x"), Leaf("id", Names[n + 1])>>)
+                  ELSE IF op = "in" THEN (IF n % 2 = 1 THEN Lst(<<Leaf("str", "x"), Leaf("id", Names[n + 1])>>)
+                                          ELSE T("call", "", <<Leaf("id", "split"), Leaf("id", Names[n + 1]), Leaf("str", ",")>>))   \* a list-valued call: an ordinary operand
                   ELSE IF n % 3 = 2 THEN Leaf("num", IF n = 2 THEN "2.0" ELSE "10.50")       \* float literals keep their source text
                   ELSE Leaf("id", Names[n + 1])
 
@@ -27,10 +28,28 @@ Init == ops = <<>>
 \* IN is generated with a parenthesised list (the only right-hand side the checker accepts besides a
 \* list-valued call).  A parenthesised IN list is an atom that can only be followed by a weaker or equal operator: a stronger one
 \* (arithmetic applied to a list) has no typing under either reading and is left out
+\* (the same holds after the call form: `x in f(y) * 2` would make the right operand a binary expression, whose
+\* canonical rendering `(x in (f(y) * 2))` reads as a one-element list - see DESIGN.md, C15 limits)
 ListBefore == Len(ops) >= 1 /\ ops[Len(ops)] = "in"
 Next == Len(ops) < MaxOps /\ \E o \in OpPool : (ListBefore => Prec(o) <= 3) /\ ops' = Append(ops, o)
 
 Items == <<[op |-> "", x |-> Leaf("id", "a")]>> \o [n \in 1..Len(ops) |-> [op |-> ops[n], x |-> Operand(n, ops[n])]]
+
+\* References to select-field names.  The field is declared as  key AS `name` ; names that are not plain lower-case
+\* words (capitals, keywords, operator words, number-like, blanks) only read back as that name when quoted.
+AliasNames == {"f1", "Total", "limit", "or", "in", "key", "1e5", "x y", "order", "AND"}
+AliasTrees(al) ==
+  LET R == Leaf("ref", al)  sx == Leaf("str", "x") IN
+  { Bin("=", R, sx), Bin("&", Bin("!=", R, sx), Bin("^=", Leaf("key", ""), Leaf("str", "k"))), T("not", "", <<Bin("=", R, sx)>>),
+    Bin("in", R, Lst(<<Leaf("str", "a"), Leaf("str", "b")>>)),      \* (the checker does not bind names inside an IN list: such statements are refused) Bin("=", T("call", "", <<Leaf("id", "upper"), R>>), Leaf("str", "A")),
+    Bin("between", R, Lst(<<Leaf("str", "a"), Leaf("str", "z")>>)), Bin("=", Bin("+", R, Leaf("str", "s")), Leaf("str", "t")),
+    Bin("or", Bin("=", sx, R), Bin("<", R, R)) }
+AliasOK == \A al \in AliasNames : \A t \in AliasTrees(al) :
+             /\ Parse(FullToks(t)).ok /\ Parse(FullToks(t)).t = t /\ Parse(MinToks(t)).ok /\ Parse(MinToks(t)).t = t
+             /\ EmitCases => /\ PrintT(ToJson([kind |-> "alias", alias |-> al, bare |-> FALSE, toks |-> MinToks(t), canon |-> Canon(t)]))
+                             /\ PrintT(ToJson([kind |-> "alias", alias |-> al, bare |-> FALSE, toks |-> FullToks(t), canon |-> Canon(t)]))
+                             /\ (al = "f1" => PrintT(ToJson([kind |-> "alias", alias |-> al, bare |-> TRUE, toks |-> MinToks(t), canon |-> Canon(t)])))
+ASSUME AliasOK
 
 Check ==
   LET items == Items
